@@ -199,18 +199,38 @@ example : (gatedWork (zcGated f32ZOps 4.0 2) (zcGated f32ZOps 4.0 2).init
     ⟨[⟨[1, 2], [], true⟩], [⟨3, true⟩, ⟨0, true⟩]⟩).2.verdict = .waitOut 1 1 := by
   simp [gatedWork, zcGated, in0, out0, noOut]
 
-/-- **Delay**, one call on any windows: it waits for output space only when there is none, for input only
-when the read window is empty (after emitting the zeros it could), and otherwise moves something — always
-within both windows. -/
+/-- **Delay**, one call on any windows: it waits for output space when there is none, or when the read window
+is empty and the zeros it owes filled all the room (more are owed: the run must go on until they are out); for
+input only when the read window is empty and no zeros are owed any more; otherwise it moves something — always
+within both windows. `c09_delay_eof_sound`: its `eof()` is true only when a further call delivers nothing. -/
 theorem c09_delay (cd : Nat) (w : List Nat) (ts : List Tag) (f : Nat) :
     let r := delayWork ⟨cd, 0⟩ ⟨[⟨w, ts, true⟩], [⟨f, true⟩]⟩
     let n := r.2.consumed.getD 0 0
     let p := (r.2.produced.getD 0 ⟨[], []⟩).samples
     n ≤ w.length ∧ p.length ≤ f ∧
     ((r.2.verdict = .waitOut 0 1 ∧ f = 0 ∧ n = 0 ∧ p = []) ∨
-     (r.2.verdict = .waitIn 0 1 ∧ 0 < f ∧ w = [] ∧ n = 0 ∧ p.length = min cd f) ∨
+     (r.2.verdict = .waitOut 0 1 ∧ 0 < f ∧ w = [] ∧ n = 0 ∧ p.length = f ∧ f < cd) ∨
+     (r.2.verdict = .waitIn 0 1 ∧ 0 < f ∧ w = [] ∧ n = 0 ∧ p.length = cd ∧ cd ≤ f) ∨
      (r.2.verdict = .again ∧ 0 < f ∧ w ≠ [] ∧ 0 < n + p.length)) :=
   delay_verdicts cd w ts f
+
+/-- Delay's `eof()` (input ended and drained, no zeros owed) is sound: a further call delivers nothing. The
+derived `eof()` was not: with zeros still owed it answered true (`c09_delay_old_eof_unsound`; `fix:` in /repo). -/
+theorem c09_delay_eof_sound (st : DelaySt) (ts : List Tag) (f : Nat)
+    (h : delayEof st ⟨[⟨[], ts, false⟩], [⟨f, true⟩]⟩ = true) :
+    ((delayWork st ⟨[⟨[], ts, false⟩], [⟨f, true⟩]⟩).2.produced.getD 0 ⟨[], []⟩).samples = [] := by
+  have hcd : st.currentDelay = 0 := by
+    simpa [delayEof, macroEof, out0] using h
+  simp only [delayWork, in0, out0, noOut, List.getD_cons_zero, hcd]
+  by_cases hf : f = 0
+  · simp [hf]
+  · have hfb : (f == 0) = false := by simpa using hf
+    simp [hfb]
+
+theorem c09_delay_old_eof_unsound :
+    macroEof ⟨[⟨[], [], false⟩], [⟨4, true⟩]⟩ = true ∧
+    ((delayWork ⟨3, 0⟩ ⟨[⟨[], [], false⟩], [⟨4, true⟩]⟩).2.produced.getD 0 ⟨[], []⟩).samples = [0, 0, 0] := by
+  decide
 
 /-- **AuEncode**, one call on any windows and in every state: with header bytes left it waits only for a
 completely full output; afterwards for input only when the window is empty and for exactly two bytes of
